@@ -6,7 +6,6 @@
                the real prime is then searched and the installed library is asked (replayed True only if IT differs)
   undecided    construct outside the subset, implication not provable and no concrete counter-example, path limit
   error        engine crash, or a function that produced no obligation at all (vacuity guard)"""
-import os
 import random
 import time
 import traceback
